@@ -1,4 +1,4 @@
-import GSProofs.Lemmas.MsgQueueLedger
+import GSProofs.Lemmas.MsgQueueShape
 /-!
 # Message queue: the ledger invariant is preserved by every step
 -/
@@ -33,7 +33,7 @@ theorem finish_spec (s : State) (m : InFlight) :
   refine ⟨rfl, f.builders, ?_⟩
   intro X h
   have := h.frame f
-  exact ⟨⟨this.1.ainv, this.1.pend, this.1.nodupW, this.1.fresh, this.1.nofail, this.1.wsize⟩, this.2⟩
+  exact ⟨⟨this.1.ainv, this.1.pend, this.1.nodupW, this.1.fresh, this.1.wsize⟩, this.2⟩
 
 omit hp in
 theorem heldInFlight_idle {s : State} (h : s.pc = .idle) : heldInFlight s = 0 := by
@@ -57,7 +57,7 @@ theorem attempt_linv {s : State} {m : InFlight} (i : Nat) (h : Led s (hb s.build
     refine ⟨?_, ?_⟩
     · show Led _ (hb (s.emit [Event.wire m.topic i]).builders + m.size)
       rw [f.builders]
-      exact ⟨⟨l.1.ainv, l.1.pend, l.1.nodupW, l.1.fresh, l.1.nofail, l.1.wsize⟩, l.2⟩
+      exact ⟨⟨l.1.ainv, l.1.pend, l.1.nodupW, l.1.fresh, l.1.wsize⟩, l.2⟩
     · show ∀ b ∈ (s.emit [Event.wire m.topic i]).builders, BInv b
       rw [f.builders]; exact hbi
   · exact error_finish_linv hp h hbi
@@ -83,7 +83,7 @@ theorem extract_spec {s : State} (hbi : ∀ b ∈ s.builders, BInv b) :
       rw [hd] at d1
       refine ⟨d1.symm, rfl, ?_, rfl, rfl, rfl, rfl⟩
       intro X h
-      exact ⟨⟨h.1.ainv, h.1.pend, h.1.nodupW, h.1.fresh, h.1.nofail, h.1.wsize⟩, h.2⟩
+      exact ⟨⟨h.1.ainv, h.1.pend, h.1.nodupW, h.1.fresh, h.1.wsize⟩, h.2⟩
     · intro s' m he; cases he
   | cons b rest =>
     simp only
@@ -101,7 +101,7 @@ theorem extract_spec {s : State} (hbi : ∀ b ∈ s.builders, BInv b) :
       · rw [f.builders]; intro x hx; exact hbi x (d2 x (List.mem_cons_of_mem _ hx))
       · intro X h
         have h0 : Led ({ s with builders := rest, token := s.token || !rest.isEmpty }) X :=
-          ⟨⟨h.1.ainv, h.1.pend, h.1.nodupW, h.1.fresh, h.1.nofail, h.1.wsize⟩, h.2⟩
+          ⟨⟨h.1.ainv, h.1.pend, h.1.nodupW, h.1.fresh, h.1.wsize⟩, h.2⟩
         exact h0.frame f
 
 /-- the drain loop -/
@@ -144,7 +144,7 @@ theorem exiting_linv {s1 : State} (l1 : Led s1 (hb s1.builders)) (b1 : ∀ b ∈
   refine ⟨?_, ?_⟩
   · show Led _ (hb (if s1.sender = true then s1.emit [Event.senderClosed] else s1).builders + 0)
     rw [Nat.add_zero, f2.builders]
-    exact ⟨⟨l2.1.ainv, l2.1.pend, l2.1.nodupW, l2.1.fresh, l2.1.nofail, l2.1.wsize⟩, l2.2⟩
+    exact ⟨⟨l2.1.ainv, l2.1.pend, l2.1.nodupW, l2.1.fresh, l2.1.wsize⟩, l2.2⟩
   · show ∀ b ∈ (if s1.sender = true then s1.emit [Event.senderClosed] else s1).builders, BInv b
     rw [f2.builders]; exact b1
 
@@ -164,7 +164,7 @@ theorem run_linv {s : State} (h : LInv s) (pw : Bool) : LInv (s.run pick pw) := 
     · -- work
       have hl0 : Led (⟨peer, maxRetries, builders, nextTopic, false, done, sender, .idle, closedStreams, waiters,
           nextTicket, topics, pubClosed, alloc, log⟩ : State) (hb builders) :=
-        ⟨⟨hl.1.ainv, hl.1.pend, hl.1.nodupW, hl.1.fresh, hl.1.nofail, hl.1.wsize⟩, hl.2⟩
+        ⟨⟨hl.1.ainv, hl.1.pend, hl.1.nodupW, hl.1.fresh, hl.1.wsize⟩, hl.2⟩
       obtain ⟨e1, e2⟩ := extract_spec (s := ⟨peer, maxRetries, builders, nextTopic, false, done, sender, .idle,
         closedStreams, waiters, nextTicket, topics, pubClosed, alloc, log⟩) hbi
       cases he : (⟨peer, maxRetries, builders, nextTopic, false, done, sender, .idle, closedStreams, waiters,
@@ -194,16 +194,11 @@ theorem run_linv {s : State} (h : LInv s) (pw : Bool) : LInv (s.run pick pw) := 
           · exact attempt_linv hp 0 l2 b2
           · refine ⟨?_, b2⟩
             show Led _ (hb (s'.publish m.topic Kind.queued).builders + m.size)
-            exact ⟨⟨l2.1.ainv, l2.1.pend, l2.1.nodupW, l2.1.fresh, l2.1.nofail, l2.1.wsize⟩, l2.2⟩
+            exact ⟨⟨l2.1.ainv, l2.1.pend, l2.1.nodupW, l2.1.fresh, l2.1.wsize⟩, l2.2⟩
     · split
       · -- done branch
-        split
-        · have hl0 : Led (⟨peer, maxRetries, builders, nextTopic, false, done, sender, .idle, closedStreams, waiters,
-              nextTicket, topics, pubClosed, alloc, log⟩ : State) (hb builders) :=
-            ⟨⟨hl.1.ainv, hl.1.pend, hl.1.nodupW, hl.1.fresh, hl.1.nofail, hl.1.wsize⟩, hl.2⟩
-          obtain ⟨d1, d2, _⟩ := drain_led hp builders.length _ hl0 hbi
-          exact exiting_linv d1 d2
-        · exact exiting_linv hl hbi
+        obtain ⟨d1, d2, _⟩ := drain_led hp builders.length _ hl hbi
+        exact exiting_linv d1 d2
       · exact h
   | opening m r => exact h
   | sending m i => exact h
